@@ -29,7 +29,7 @@ def profile(name, **kw):
         callers=(1, 3), small=False, check_all_every=16, nontarget=True,
         tx=dict(edit=6, query=3, derive_edit=0, relabel=0, twin=0, pair=0, mutant=0,
                 enum=0, enant=0, react=0, persist=0, algebra=0, faults=0, flip=0,
-                isomers=0, symnum=0, wlpair=0, large=0, hubs=0, copies=0, dense=0, build=1),
+                isomers=0, symnum=0, wlpair=0, large=0, hubs=0, copies=0, dense=0, changeshare=0, build=1),
         fault_rate=(0.0, 0.15),
     )
     tx = dict(base["tx"])
@@ -41,7 +41,7 @@ def profile(name, **kw):
 
 profile("C09", tx=dict(edit=8, query=5, relabel=1, derive_edit=1, persist=0, large=0.08, dense=0.5, build=1), steps=(30, 120))
 profile("C19", tx=dict(edit=6, query=2, faults=4, relabel=1, build=1), steps=(30, 90), fault_rate=(0.05, 0.3))
-profile("C10", tx=dict(edit=3, query=1, derive_edit=8, relabel=1, react=1, persist=1, algebra=2, isomers=1, build=1),
+profile("C10", tx=dict(edit=3, query=1, derive_edit=8, relabel=1, react=1, persist=1, algebra=2, isomers=1, changeshare=3, build=1),
         nontarget=True, check_all_every=4, callers=(2, 4))
 profile("C11", tx=dict(edit=3, query=2, relabel=8, twin=1, derive_edit=1, algebra=1, large=0.06, build=1))
 profile("C01", tx=dict(edit=4, query=1, twin=8, relabel=1, derive_edit=1, large=0.08, hubs=0.2, copies=1, build=2), max_atoms=(1, 12))
@@ -105,8 +105,8 @@ def make_config(rng, prof_name, tier):
             for k, v in p["tx"].items()},
         max_slots=rng.randint(4, 10),
         # eight-coordinate atoms without a descriptor cost 8! permutations per
-        # colouring: thorough tier only
-        hypervalent=(prof_name in ("C01", "C03") and tier == "thorough" and rng.random() < 0.03),
+        # colouring (0.15 s): rare in the quick tier
+        hypervalent=(prof_name in ("C01", "C03") and rng.random() < (0.03 if tier == "thorough" else 0.006)),
     )
     # the profile's own speciality is never switched off
     top = max(p["tx"], key=lambda k: p["tx"][k])
@@ -828,8 +828,27 @@ class Gen:
         c = self.graphs(unlocked=True)
         if not c:
             return
-        s = self.rng.choice(c)
+        rng = self.rng
+        s = rng.choice(c)
         m = self.w.slots[s].model
+        if m.is_stereo and m.bonds and rng.random() < 0.3:
+            # first leave a bond behind that is gone but still owns a
+            # descriptor / a change table (remove_bond keeps them)
+            x, y = self.present_bond(m)
+            if B(x, y) not in m.bstereo and (not m.has_changes or rng.random() < 0.5):
+                d = self.bond_desc(m, bond=(x, y)) or ("PlanarBond", (None, None, x, y, None, None), 0)
+                yield dict(k="set_bstereo", s=s, d=model.list_desc(d))
+            elif m.has_changes and B(x, y) not in m.bchange:
+                d = self.bond_desc(m, bond=(x, y)) or ("PlanarBond", (None, None, x, y, None, None), 0)
+                o = dict(k="set_bchange", s=s, broken=None, fleeting=None, formed=None)
+                o["fleeting"] = model.list_desc(d)
+                yield o
+            if self.w.graph(s) is None or self.w.slots[s].locks:
+                return
+            yield dict(k="remove_bond", s=s, a=x, b=y)
+            if self.w.graph(s) is None or self.w.slots[s].locks:
+                return
+            m = self.w.slots[s].model
         cat = self.fault_catalogue(s, m) + self.lookup_catalogue(s, m)
         self.rng.shuffle(cat)
         for op in cat:
@@ -945,6 +964,115 @@ class Gen:
                     extra = [a for a in ats if a not in union and rng.random() < 0.4]
                     out.append(sorted(union) + extra)
         return out
+
+    def tx_changeshare(self):
+        """every derivation of a stereo reaction graph that carries stereo
+        changes, each followed by an in-place edit of a change table on one
+        side (the other side is watched by the non-target check)"""
+        rng = self.rng
+        c = [x for x in self.graphs(kinds=("SCRG",), unlocked=True)
+             if self.w.slots[x].model.achange or self.w.slots[x].model.bchange]
+        if not c:
+            if "SCRG" not in self.cfg["classes"] or not self.room():
+                yield from self.tx_build()
+                return
+            # plant one: a star / E-Z skeleton with two or three stereo changes
+            s = self.slot_id()
+            yield dict(k="new", dst=s, cls="SCRG")
+            ids = list(self.cfg["ids"])
+            while len(ids) < 9:
+                ids.append(max(ids) + 1)
+            rng.shuffle(ids)
+            n = rng.randint(6, 9)
+            for a in ids[:n]:
+                yield dict(k="add_atom", s=s, a=a, t=self.el(), kw={})
+            hub = ids[0]
+            for a in ids[1:5]:
+                yield dict(k=rng.choice(("add_bond", "add_bond", "add_formed_bond", "add_broken_bond")), s=s, a=hub, b=a, kw={})
+            for i in range(5, n):
+                yield dict(k="add_bond", s=s, a=ids[i - 4], b=ids[i], kw={})
+            for _ in range(rng.randint(1, 3)):
+                sl = self.w.graph(s)
+                if sl is None:
+                    return
+                op = self.change_op(s, sl.model, rng.choice(("set_achange", "set_bchange")))
+                if op:
+                    yield op
+            sl = self.w.graph(s)
+            if sl is None or not (sl.model.achange or sl.model.bchange):
+                return
+        else:
+            s = rng.choice(c)
+        kinds = ["copy", "ctor", "relabel_avoid", "relabel_total", "subgraph_keep", "compose_one", "compose_two",
+                 "enantiomer", "reverse", "json"]
+        rng.shuffle(kinds)
+        for k in kinds[:rng.randint(2, 5)]:
+            sl = self.w.graph(s)
+            if sl is None or not self.room():
+                return
+            m = sl.model
+            if not (m.achange or m.bchange):
+                return
+            d = self.slot_id()
+            named = {x for w_, _k, _r, dd in m.all_descs() if w_ in ("achange", "bchange") for x in dd[1] if x is not None}
+            for b_ in m.bchange:
+                named |= set(b_)
+            if k == "copy":
+                yield dict(k="copy", src=s, dst=d)
+            elif k == "ctor":
+                yield dict(k="ctor", src=s, dst=d, cls="SCRG")
+            elif k == "relabel_avoid":
+                rest = [a for a in m.sorted_atoms() if a not in named]
+                if not rest:
+                    continue
+                keys = [a for a in rest if rng.random() < 0.7] or [rest[0]]
+                base = max(m.sorted_atoms() + self.cfg["ids"]) + 1
+                yield dict(k="relabel", src=s, dst=d, map=[[a, base + i] for i, a in enumerate(keys)], copy=True)
+            elif k == "relabel_total":
+                yield dict(k="relabel", src=s, dst=d, map=self.rand_mapping(m, total=True), copy=True)
+            elif k == "subgraph_keep":
+                keep = sorted(named & set(m.atoms))
+                extra = [a for a in m.sorted_atoms() if a not in named and rng.random() < 0.5]
+                S = keep + extra
+                rng.shuffle(S)
+                yield dict(k="subgraph", src=s, dst=d, atoms=S, **{"as": rng.choice(("list", "set", "gen"))})
+            elif k in ("compose_one", "compose_two"):
+                others = [x for x in self.graphs() if x != s]
+                srcs = [s] + ([rng.choice(others)] if k == "compose_two" and others else [])
+                rng.shuffle(srcs)
+                yield dict(k="compose", srcs=srcs, dst=d, cls="SCRG", **{"as": rng.choice(("list", "gen"))})
+            elif k == "enantiomer":
+                yield dict(k="enantiomer", src=s, dst=d)
+            elif k == "reverse":
+                yield dict(k="reverse", src=s, dst=d)
+            else:
+                t = self.slot_id()
+                yield dict(k="serialize", src=s, dst=t, reencode=None)
+                yield dict(k="deserialize", src=t, dst=d)
+                yield dict(k="drop", s=t)
+            if self.w.graph(d) is None:
+                continue
+            # in-place edits of change tables, on either side
+            for _ in range(rng.randint(1, 2)):
+                side = rng.choice((s, d))
+                sl2 = self.w.graph(side)
+                if sl2 is None or sl2.locks:
+                    continue
+                m2 = sl2.model
+                cands = []
+                for a, t_ in sorted(m2.achange.items()):
+                    for r in sorted(t_):
+                        cands.append(dict(k="del_achange", s=side, a=a, role=r))
+                        cands += [dict(k="remove_atom", s=side, a=x) for x in geom.desc_atoms(t_[r])[1:] if x in m2.atoms]
+                for b_, t_ in sorted(m2.bchange.items(), key=lambda kv: tuple(sorted(kv[0]))):
+                    x, y = sorted(b_)
+                    for r in sorted(t_):
+                        cands.append(dict(k="del_bchange", s=side, a=x, b=y, role=r))
+                        cands += [dict(k="remove_atom", s=side, a=z) for z in geom.desc_atoms(t_[r]) if z in m2.atoms and z not in b_]
+                if cands:
+                    yield rng.choice(cands)
+            if d in self.w.slots and not self.w.slots[d].locks and rng.random() < 0.8:
+                yield dict(k="drop", s=d)
 
     def targeted_edit(self, s):
         """an edit that mutates a nested container in place - the places where
